@@ -77,7 +77,10 @@ func genC18(t *simrt.Tape, tier string) Scenario {
 	n := 1 + t.Choose(maxSteps)
 	verbs := []string{"Get", "Head", "Options", "Delete", "Post", "Put", "Patch", "API"}
 	for i := 0; i < n; i++ {
-		switch t.ChooseW([]int{4, 2, 1, 2, 6}) {
+		switch t.ChooseW([]int{4, 2, 1, 2, 6, 1}) {
+		case 5:
+			// the user swaps the transport of a client and hands the client over again
+			sc.Steps = append(sc.Steps, c18Step{Kind: "SwapTransport", Cli: t.Choose(sc.NCli)})
 		case 0:
 			sc.Steps = append(sc.Steps, c18Step{Kind: "Add", Ics: pick()})
 		case 1:
@@ -249,6 +252,16 @@ func (sc *c18Scenario) Run(s *simrt.Sim) {
 			curCli = st.Cli
 			c := clients[st.Cli]
 			h.Do("main", "SetHTTPClient", st.Cli, func() (interface{}, error) { sh.SetHTTPClient(c); return nil, nil })
+		case "SwapTransport":
+			curCli = st.Cli
+			c := clients[st.Cli]
+			nid := 100 + si
+			h.Do("main", "SwapTransport+SetHTTPClient", st.Cli, func() (interface{}, error) {
+				c.Transport = &c18Stub{id: nid, log: &log, depth: &depth, seen: &seen}
+				sh.SetHTTPClient(c)
+				return nil, nil
+			})
+			sc.probes["transport-swapped"]++
 		case "Request":
 			if len(model) >= 2 {
 				sc.probes["request-with-2+-interceptors"]++
